@@ -307,5 +307,6 @@ def check(ctx):
     check_recover(ctx)
     check_snapshot(ctx)
     check_current(ctx)
-    from . import c02
+    from . import c02, c03
     c02.check_manifest(ctx)    # CURRENT always names a complete MANIFEST
+    c03.check_reuse_manifest_offset(ctx)   # a reused MANIFEST keeps the record framing
